@@ -23,6 +23,7 @@ import (
 	"strconv"
 	"strings"
 	"sync"
+	"sync/atomic"
 	"syscall"
 	"time"
 
@@ -142,11 +143,54 @@ func workerMain(args []string) {
 		}
 	}
 	enc := json.NewEncoder(f)
+	var curCase, curSince atomic.Int64
+	curCase.Store(-1)
+	go idleWatchdog(&curCase, &curSince)
 	for i := *from; i < *to; i++ {
 		idx := i
 		_ = enc.Encode(workerLine{Start: &idx})
+		curSince.Store(time.Now().UnixNano())
+		curCase.Store(int64(idx))
 		res := runCase(p, env, idx)
+		curCase.Store(-1)
 		_ = enc.Encode(workerLine{Res: &res})
+	}
+}
+
+func processCPU() time.Duration {
+	var ru syscall.Rusage
+	if syscall.Getrusage(syscall.RUSAGE_SELF, &ru) != nil {
+		return -1
+	}
+	return time.Duration(ru.Utime.Nano() + ru.Stime.Nano())
+}
+
+// idleWatchdog ends the worker when a case has been running for 30 s and the whole process then uses no CPU over two
+// consecutive windows of 5 s: the case is blocked (lock never released, channel never served), which no chunk watchdog needs
+// 15 minutes to find out. A case that is busy is left to the supervisor's watchdog; while a property waits for a child process the watchdog stands back.
+func idleWatchdog(curCase, curSince *atomic.Int64) {
+	for {
+		time.Sleep(5 * time.Second)
+		c := curCase.Load()
+		if c < 0 || core.WaitingForChild.Load() > 0 || time.Since(time.Unix(0, curSince.Load())) < 30*time.Second {
+			continue
+		}
+		idle := 0
+		for idle < 2 {
+			before := processCPU()
+			time.Sleep(5 * time.Second)
+			after := processCPU()
+			if curCase.Load() != c || core.WaitingForChild.Load() > 0 || before < 0 || after-before > 20*time.Millisecond {
+				break
+			}
+			idle++
+		}
+		if idle == 2 && curCase.Load() == c {
+			buf := make([]byte, 1<<20)
+			buf = buf[:runtime.Stack(buf, true)]
+			fmt.Fprintf(os.Stderr, "VERIF-DEADLOCK case=%d: running for %s, no CPU use over two windows of 5 s\n%s\n", c, time.Since(time.Unix(0, curSince.Load())).Round(time.Second), topFrames(buf, 120))
+			os.Exit(4)
+		}
 	}
 }
 
@@ -576,6 +620,8 @@ func runChunk(p *core.Property, exe, tier string, seed int64, c chunk, tmp strin
 			} else {
 				res.Inconcl = "chunk watchdog fired but the case finished when run alone"
 			}
+		} else if strings.Contains(string(stderr), "VERIF-DEADLOCK case=") {
+			res.Violate("hang (blocked: no CPU use while the case was running)", fmt.Sprintf("case %d never returned; the worker's idle watchdog found every goroutine waiting\n%s", last, core.Abbrev(crashHead(string(stderr)), 3000)), map[string]interface{}{"idx": last})
 		} else {
 			res.Violate("fatal-crash", fmt.Sprintf("worker died in case %d: %v\n%s", last, werr, core.Abbrev(crashHead(string(stderr)), 1500)), map[string]interface{}{"idx": last})
 		}
